@@ -155,6 +155,21 @@ CallOutcome(hl, given, nones, dup) ==
   IF dup \/ (\E k \in Idx(hl) : hl[k][1] \notin given) THEN [r |-> "err", calls |-> <<>>]
   ELSE [r |-> "ok", calls |-> SortedSeq({k \in Idx(hl) : hl[k][1] \notin nones})]
 
+(* Wildcard-key mappings are compared as mappings (no order).               *)
+RECURSIVE CanonSV(_)
+CanonVal(v) ==
+  CASE v.t \in {"map", "mapl"} -> [t |-> v.t, items |-> {v.items[i] : i \in DOMAIN v.items}]
+    [] v.t = "sec"  -> [t |-> "sec", v |-> CanonSV(v.v)]
+    [] v.t = "secs" -> [t |-> "secs", items |-> [i \in DOMAIN v.items |-> CanonSV(v.items[i])]]
+    [] OTHER        -> v
+CanonSV(sv) ==
+  IF "wrapped" \in DOMAIN sv THEN [wrapped |-> CanonSV(sv.wrapped)]
+  ELSE [type |-> sv.type, name |-> sv.name,
+        attrs |-> [i \in DOMAIN sv.attrs |-> <<sv.attrs[i][1], CanonVal(sv.attrs[i][2])>>]]
+
+Similar(a, b) == \/ a.r = "err" /\ b.r = "err"
+                 \/ a.r = "ok" /\ b.r = "ok" /\ CanonSV(a.tree) = CanonSV(b.tree)
+
 RECURSIVE HasUnspecified(_, _, _)
 HasUnspecified(vocab, T, node) ==
   \E i \in Idx(node.secs) :
